@@ -117,7 +117,9 @@ def history(rng, a, cur, mode):
         h3['ver'] = other(rng, cur['ver'])
         for sn in h3['svs']:
             h3['svs'][sn] = (other(rng, h3['svs'][sn][0]), h3['svs'][sn][1])
-        return [h1, h2, h3], 'same-split'
+        hs = [h1, h2, h3]
+        rng.shuffle(hs)
+        return hs, 'same-split'
     if r < 0.62:
         hist = [copy.deepcopy(cur) for _ in range(rng.randint(1, 2))]
         for h in hist:
